@@ -69,7 +69,8 @@ fn forced_model(i: usize) -> (ModelGame, Comp, bool, &'static str) {
 		"gecko" => {
 			let mut b = vec![0u8; 1024];
 			crate::gen::SplitMix(seed).fill(&mut b);
-			m.gecko = Some(Gecko { bytes: b, actual: 513 + (seed % 511) as u32 });
+			let actual = [1024u32, 513, 1023, 600][var % 4];
+			m.gecko = Some(Gecko { bytes: b, actual });
 		}
 		_ => {}
 	}
